@@ -44,7 +44,7 @@ func genRHPCase(rng *rand.Rand, idx int) RHPCase {
 }
 
 func phaseRHP(r *mon.Run) {
-	n := r.Pick(12, 120)
+	n := r.Pick(40, 300)
 	for i := 0; i < n; i++ {
 		c := genRHPCase(r.RNG(0xE000+uint64(i)), i)
 		if i == 0 {
